@@ -148,14 +148,14 @@ theorem poller_loop_tie (ks : List Thread) (fs : List (String × Value)) (phc : 
       simp [rs_eval, rs_code, abstractedP, hw]
       simp [eventsBefore, inputsBefore, PIter.events, PIter.inputs, chanValue, hpoll, hwt, RecvT.value, Nat.add_assoc]
   case a => omega
-  rw [evalWhile_step (n := F + 95)]
+  rw [evalWhile_step]
   case hc => simp [rs_eval]
   cases e with
   | abort poll =>
     simp only [PEnd.inputs, inputsAt_append, inputsAt, and_true] at hend
     obtain ⟨hp, hw⟩ := hend
     have hm : poll.phcMiss phc := hmissE
-    rw [stageA (n := F + 94) (v := .unit) (evs1 := poll.events true) (c1 := (poll.inputs true).length)]
+    rw [stageA (v := .unit) (evs1 := poll.events true) (c1 := (poll.inputs true).length)]
     case hA => poll_half poll phc hp hm
     simp only [RecvT.value, RMsg.value] at hw
     simp [rs_eval, rs_code, abstractedP, hw]
@@ -166,7 +166,7 @@ theorem poller_loop_tie (ks : List Thread) (fs : List (String × Value)) (phc : 
     have hs : poll.sends = true := hsend poll rfl
     simp only [PEnd.inputs] at hend
     have hm : poll.phcMiss phc := hmissE
-    rw [stageA_panic (n := F + 94)]
+    rw [stageA_panic]
     case hA => poll_half_fail poll phc hend hm hs
     simp [rs_eval, loopResult]
 
